@@ -361,7 +361,7 @@ theorem change_eq {c : CacheAcct} {Ri Rs} (hc : CInv c Ri Rs) (ni : Info) (chg :
 
 theorem apply_event (sc : Bool) (c : CacheAcct) (t? : Option Transition) (ms : Status) (Mi : Option Info)
     (Ms : Nat → Nat) (Ri : Option Info) (Rs : Nat → Nat) (ea : EvmAcct)
-    (hc : CInv c Ri Rs) (hg : GInv t? c ms Mi Ms Ri Rs) (he : EvOk Ri Rs ea) :
+    (hc : CInv c Ri Rs) (hg : GInv t? c ms Mi Ms Ri Rs) (he' : ea.touched = true → EvOk Ri Rs ea) :
     ∃ c' tr, applyAccountState sc c ea = some (c', tr) ∧
       CInv c' (evInfo sc Ri ea) (evSlots sc Rs ea) ∧
       GInv (combine t? tr) c' ms Mi Ms (evInfo sc Ri ea) (evSlots sc Rs ea) := by
@@ -372,6 +372,7 @@ theorem apply_event (sc : Bool) (c : CacheAcct) (t? : Option Transition) (ms : S
     · simp only [evInfo, evSlots, ht, Bool.not_false, if_true]; exact hc
     · simp only [evInfo, evSlots, ht, Bool.not_false, if_true, combine]; exact hg
   | true =>
+  have he := he' ht
   cases hsd : ea.selfdestructed with
   | true =>
     have hap : applyAccountState sc c ea = some c.selfdestruct := by simp [applyAccountState, ht, hsd]
